@@ -199,9 +199,14 @@ func doMinimise(path, outPath string, budget time.Duration) int {
 		fmt.Fprintf(os.Stderr, "minimise: violation does not reproduce without its decision log (%d tries)\n", tries)
 		return 3
 	}
-	best.Decisions = out.Decisions
-	nrf := ReplayFile{Case: best, Violation: out.Violation, TraceHash: out.TraceHash,
-		Note: fmt.Sprintf("minimised from %s in %d candidate runs", filepath.Base(path), tries)}
+	note := fmt.Sprintf("minimised from %s in %d candidate runs", filepath.Base(path), tries)
+	if best.QuietTail {
+		// the schedule was cut down to a prefix of recorded decisions followed by a quiet tail
+		note += fmt.Sprintf("; schedule: %d recorded decisions, then quiet tail (run took %d decisions)", len(best.Decisions), len(out.Decisions))
+	} else {
+		best.Decisions = out.Decisions
+	}
+	nrf := ReplayFile{Case: best, Violation: out.Violation, TraceHash: out.TraceHash, Note: note}
 	nb, _ := json.MarshalIndent(nrf, "", " ")
 	if err := os.WriteFile(outPath, nb, 0644); err != nil {
 		fmt.Fprintln(os.Stderr, err)
